@@ -336,7 +336,8 @@ var strPool = []string{"", "a", "hello", "é😀", "<>&", " ", "\"\\/", "\x00\x1
 	"https://h/users/1001/profile.json", "https://h/users/1002/profile.json", "https://h/users/2001/profile.json",
 	"prefix00-A-suffix00", "prefix00-B-suffix00", "prefix00-C-suffix00",
 	"k0000000" + strings.Repeat("m", 200) + "1tail0000", "k0000000" + strings.Repeat("m", 200) + "2tail0000"}
-var i64Pool = []int64{0, 1, -1, math.MaxInt64, math.MinInt64, math.MaxInt64 - 1, math.MinInt64 + 1, 1 << 53, 1<<53 + 1, -(1 << 53) - 1, 127, 128, -128, -129, 255, 256, 32767, 32768, -32768, 65535, 65536, 1<<31 - 1, 1 << 31, -(1 << 31), 1<<32 - 1, 1 << 32, 1e18, 999999999999999999}
+var i64Pool = []int64{0, 1, -1, math.MaxInt64, math.MinInt64, math.MaxInt64 - 1, math.MinInt64 + 1, 1 << 53, 1<<53 + 1, -(1 << 53) - 1, 127, 128, -128, -129, 255, 256, 32767, 32768, -32768, 65535, 65536, 1<<31 - 1, 1 << 31, -(1 << 31), 1<<32 - 1, 1 << 32, 1e18, 999999999999999999, 1e9, 1e10, 1e15, 1e16, 1e17,
+	-8446744073709551616, -8446744073709551617, -8446744073709551615} // (the last three are 10^19 and its neighbours when taken as uint64)
 var f64Pool = []float64{0, math.Copysign(0, -1), 1, -1, 1.5, 1e21, 1e-7, 1e-6, 1e20, 999999999999999900000, math.MaxFloat64, math.SmallestNonzeroFloat64, math.MaxFloat32, math.SmallestNonzeroFloat32, 0.1, 0.3, 1 << 53, 1<<53 + 2, 123456789.123456789, 5e-324, 2.2250738585072014e-308, 1e23, 8.41e21, 4.35e-10, -1e-7, 9.999999e-7,
 	7.038531e-26} // the one float32 whose shortest digits, parsed with 64 bits and then narrowed, give its neighbour
 
